@@ -110,6 +110,23 @@ class Frame:
 FALL = ('fall',)     # block completed normally
 
 
+class LiveEnv:
+    """The environment a closure sees: the defining frame's variables *at call time* plus the cells of the comprehensions
+    that enclosed its creation (updated while those run, kept afterwards)."""
+    __slots__ = ('frame', 'cells')
+
+    def __init__(self, frame, cells):
+        self.frame, self.cells = frame, cells
+
+    def current(self):
+        if not self.cells:
+            return self.frame.env
+        env = dict(self.frame.env)
+        for c in self.cells:
+            env.update(c)
+        return env
+
+
 class Evaluator:
     TRACE = set()          # qualified names of every package function consulted by any evaluator instance
     DOMAIN = ()            # facts about the checks' symbolic inputs (e.g. "k is a valid scalar"); part of every evaluation
@@ -1324,7 +1341,8 @@ class Evaluator:
             self._closures = {}
         # one closure per evaluation of the `def` (a decorator applied five times creates five wrappers)
         key = '%s:%d:%d#%d' % (fr.module.relpath if fr.module is not None else '?', st.lineno, st.col_offset, len(self._closures))
-        self._closures[key] = (st, fr.env, fr.module, fr.cls, fr.fn)        # the enclosing environment itself (late binding)
+        self._closures[key] = (st, LiveEnv(fr, list(getattr(self, '_comp_cells', []))), fr.module, fr.cls, fr.fn, None,
+                               [self.expr(d, fr) for d in a.defaults])   # late binding of free variables, early defaults
         clo = ('closure', key)
         for d in reversed(st.decorator_list):
             txt = ast.unparse(d.func if isinstance(d, ast.Call) else d)
@@ -1798,15 +1816,23 @@ class Evaluator:
         if not hasattr(self, '_closures'):
             self._closures = {}
         key = '%s:%d:%d' % (fr.module.relpath if fr.module is not None else '?', e.lineno, e.col_offset)
-        if key in self._closures and self._closures[key][1] != fr.env:
+        snap = dict(fr.env)
+        if key in self._closures and self._closures[key][5] != snap:
             key = '%s#%d' % (key, len(self._closures))       # the same lambda expression evaluated in another environment
-        self._closures[key] = (e, dict(fr.env), fr.module, fr.cls, fr.fn)
+        # late binding, as in Python: free variables are looked up in the defining frame when the lambda is *called* (a lambda
+        # made in a loop and called after it sees the loop variable's last value); variables of an enclosing comprehension
+        # live in that comprehension's own cells, which keep the last item after the comprehension has finished
+        self._closures[key] = (e, LiveEnv(fr, list(getattr(self, '_comp_cells', []))), fr.module, fr.cls, fr.fn, snap,
+                               [self.expr(d, fr) for d in a.defaults])      # defaults are evaluated when the lambda is made
         return ('closure', key)
 
     def _apply_closure(self, callee, args, kwargs, fr):
-        e, env0, module, cls, fn = self._closures[callee[1]]
+        e, env0, module, cls, fn = self._closures[callee[1]][:5]
+        default_values = self._closures[callee[1]][6] if len(self._closures[callee[1]]) > 6 else None
         a = e.args
         names = [x.arg for x in a.args]
+        if isinstance(env0, LiveEnv):
+            env0 = env0.current()
         env = dict(env0)
         if len(args) > len(names) and a.vararg is None:
             return T.raise_('TypeError')
@@ -1829,10 +1855,13 @@ class Evaluator:
             env[a.kwarg.arg] = T.dct([(T.const(k), v) for k, v in extra_kw.items()])
         defaults = a.defaults
         bound = set(names[:len(args)]) | set(kwargs)
-        for n, d in zip(names[len(names) - len(defaults):], defaults):
+        for j, (n, d) in enumerate(zip(names[len(names) - len(defaults):], defaults)):
             if n not in bound:
-                f0 = Frame(fn, dict(env0), fr.facts, module, cls, fr.depth + 1)
-                env[n] = self.expr(d, f0)
+                if default_values is not None and j < len(default_values):
+                    env[n] = default_values[j]
+                else:
+                    f0 = Frame(fn, dict(env0), fr.facts, module, cls, fr.depth + 1)
+                    env[n] = self.expr(d, f0)
                 bound.add(n)
         if any(n not in bound for n in names):
             return T.raise_('TypeError')
@@ -1875,6 +1904,18 @@ class Evaluator:
     def ex_DictComp(self, e, fr):
         return self._comp(e, fr, 'dict')
 
+    def _cell_push(self):
+        if not hasattr(self, '_comp_cells'):
+            self._comp_cells = []
+        cell = {}
+        self._comp_cells.append(cell)
+        return cell
+
+    def _cell_update(self, cell, target, fr):
+        for n in ast.walk(target):
+            if isinstance(n, ast.Name) and n.id in fr.env:
+                cell[n.id] = fr.env[n.id]
+
     def _comp_nested(self, e, fr, kind):
         """Several `for` clauses: supported when every iterable has a fixed shape (evaluated by unrolling)."""
         saved = dict(fr.env)
@@ -1893,6 +1934,7 @@ class Evaluator:
                 return False
             for item in items:
                 self.assign(g.target, item, fr)
+                self._cell_update(cell, g.target, fr)
                 keep = T.TRUE
                 for cnd in g.ifs:
                     keep = T.and_(keep, self.decide(self.truth(self.expr(cnd, fr), fr), fr))
@@ -1903,7 +1945,11 @@ class Evaluator:
                 if not rec(gi + 1):
                     return False
             return True
-        ok = rec(0)
+        cell = self._cell_push()
+        try:
+            ok = rec(0)
+        finally:
+            self._comp_cells.pop()
         for k in list(fr.env):
             if k not in saved:
                 del fr.env[k]
@@ -1913,20 +1959,26 @@ class Evaluator:
             return T.opaque('nested comprehension over a symbolic iterable')
         return T.dct(out) if kind == 'dict' else self._lift_seq(out, T.lst)
 
-    def _comp(self, e, fr, kind):
+    def _comp(self, e, fr, kind, _it=None):
         if len(e.generators) != 1:
             return self._comp_nested(e, fr, kind)
         g = e.generators[0]
-        it = self._consume(self.expr(g.iter, fr))
+        it = self._consume(self.expr(g.iter, fr)) if _it is None else _it
+        if T.tag(it) == 'phi' and it is not FALL and len(_leaves_of(it)) <= 64 \
+                and all(x is not FALL and (T.tag(x) == 'raise' or _fixed_items(x) is not None) for x in _leaves_of(it)):
+            # a case analysis over sequences of different fixed shapes (a filtered list, a zip of it): one comprehension per case
+            return _map_leaves(it, lambda alt: alt if T.tag(alt) == 'raise' else self._comp(e, fr, kind, alt))
         items = _fixed_items(it)
         saved = dict(fr.env)
         entered = False
+        cell = self._cell_push()
         try:
             if items is not None and len(items) <= UNROLL_BOUND:
                 out = []          # [(keep condition, element)]
                 n_sym = 0
                 for item in items:
                     self.assign(g.target, item, fr)
+                    self._cell_update(cell, g.target, fr)
                     keep = T.TRUE
                     for cnd in g.ifs:
                         keep = T.and_(keep, self.decide(self.truth(self.expr(cnd, fr), fr), fr))
@@ -1968,6 +2020,7 @@ class Evaluator:
             self._comp_depth = depth_ + 1
             entered = True
             self.assign(g.target, var, fr)
+            self._cell_update(cell, g.target, fr)
             keep = T.TRUE
             for cnd in g.ifs:
                 keep = T.and_(keep, self.truth(self.expr(cnd, fr), fr))
@@ -1977,6 +2030,7 @@ class Evaluator:
                 body = self.expr(e.elt, fr)
             return T.raw_op('MAP', var, body, it, keep, T.const(kind))
         finally:
+            self._comp_cells.pop()
             if entered:
                 self._comp_depth -= 1
             # comprehension variables do not leak
@@ -2134,7 +2188,20 @@ class Evaluator:
         args, kwargs = self._args(e, fr)
         if args is None:
             return T.opaque('star-args with symbolic value')
+        if '**' in kwargs:
+            return self._spread_kwargs(kwargs, lambda k2: self.apply(callee, args, k2, fr, e))
         return self.apply(callee, args, kwargs, fr, e)
+
+    def _spread_kwargs(self, kwargs, cont):
+        """`f(**d)` with d a case analysis over dictionaries with constant keys: one call per case"""
+        spread = kwargs.pop('**')
+
+        def alt(d):
+            k2 = dict(kwargs)
+            for k, x in d[1]:
+                k2[k[1]] = x
+            return cont(k2)
+        return _map_leaves(spread, alt)
 
     def _args(self, e, fr):
         args = []
@@ -2155,6 +2222,9 @@ class Evaluator:
                 if T.tag(v) == 'dict' and all(T.is_const(k) for k, _ in v[1]):
                     for k, x in v[1]:
                         kwargs[k[1]] = x
+                elif _container_phi(v) and '**' not in kwargs and \
+                        all(T.tag(l) == 'dict' and all(T.is_const(k) for k, _ in l[1]) for l in _leaves_of(v)):
+                    kwargs['**'] = v        # distributed by the caller (_spread_kwargs)
                 else:
                     return None, None
             else:
@@ -2197,6 +2267,9 @@ class Evaluator:
         args, kwargs = self._args(e, fr)
         if args is None:
             return T.opaque('star-args with symbolic value')
+        if '**' in kwargs:
+            target = self.getattr(recv, name, fr, e)
+            return self._spread_kwargs(kwargs, lambda k2: self.apply(target, args, k2, fr, e))
         target = self.getattr(recv, name, fr, e)
         if T.tag(target) in ('bound', 'func', 'cls', 'ext') or T.is_op(target, 'WEAKREF') \
                 or (T.tag(target) == 'closure' and T.tag(recv) == 'obj') \
@@ -2296,6 +2369,15 @@ class Evaluator:
                     return args[0]
                 elif short in ('len', 'reversed'):
                     return T.raise_('TypeError')
+            if short in _SHAPE_BUILTINS and not kwargs:
+                for i, a in enumerate(args):
+                    if _container_phi(a):
+                        # a case analysis over containers of different shapes (a filtered list): the call is made per case
+                        def alt(x, i=i):
+                            a2 = list(args)
+                            a2[i] = x
+                            return self.apply(callee, a2, kwargs, fr, node)
+                        return _map_leaves(a, alt)
             return X.ext_call(self, callee[1], args, kwargs, fr, node)
         if T.is_op(callee, 'WEAKREF') and not args and not kwargs:
             # the referent while something else keeps it alive, else None - which of the two is not a function of the
@@ -2322,6 +2404,17 @@ class Evaluator:
 
 def _is_int_const(t):
     return T.is_const(t) and isinstance(t[1], int) and not isinstance(t[1], bool)
+
+
+_SHAPE_BUILTINS = {'zip', 'enumerate', 'list', 'tuple', 'reversed', 'dict', 'len', 'sorted'}
+
+
+def _container_phi(t):
+    """a Phi every alternative of which is a list / tuple / dict value (at most 64 alternatives)"""
+    if T.tag(t) != 'phi' or t is FALL:
+        return False
+    ls = _leaves_of(t)
+    return len(ls) <= 64 and all(x is not FALL and T.tag(x) in ('list', 'tuple', 'dict') for x in ls)
 
 
 N_VALUE = 0xFFFFFFFFFFFFFFFFFFFFFFFFFFFFFFFEBAAEDCE6AF48A03BBFD25E8CD0364141     # order of secp256k1
